@@ -251,3 +251,64 @@ async def collect(agen: Any) -> list:
 
 def classify_exc(exc: BaseException) -> str:
     return type(exc).__name__
+
+
+# ---------------------------------------------------------------------------------------
+# deterministic work metering (C20): counts Python function entries, calls (C functions included)
+# and jumps (every loop iteration) of everything but the harness itself, through sys.monitoring.
+
+class WorkBudgetExceeded(BaseException):
+    """Raised inside the code under test when the counted-work budget is exhausted."""
+
+
+class Meter:
+    _installed = False
+    count = 0
+    budget = 1 << 62
+    active = False
+
+    @classmethod
+    def install(cls) -> None:
+        if cls._installed:
+            return
+        import sys
+        mon = sys.monitoring
+        tool = mon.PROFILER_ID
+        ev = mon.events
+        skip = (env.VERIF_ROOT + "/",)
+
+        def on_event(code: Any, *args: Any) -> Any:
+            if code.co_filename.startswith(skip):
+                return mon.DISABLE
+            cls.count += 1
+            if cls.count > cls.budget:
+                cls.budget = 1 << 62
+                mon.set_events(tool, 0)
+                cls.active = False
+                raise WorkBudgetExceeded(cls.count)
+            return None
+
+        mon.use_tool_id(tool, "verif-meter")
+        for e in (ev.PY_START, ev.JUMP, ev.CALL):
+            mon.register_callback(tool, e, on_event)
+        cls._installed = True
+
+    @classmethod
+    def start(cls, budget: int) -> None:
+        import sys
+        cls.install()
+        cls.count = 0
+        cls.budget = budget
+        cls.active = True
+        mon = sys.monitoring
+        mon.set_events(mon.PROFILER_ID, mon.events.PY_START | mon.events.JUMP | mon.events.CALL)
+
+    @classmethod
+    def stop(cls) -> int:
+        import sys
+        mon = sys.monitoring
+        if cls.active:
+            mon.set_events(mon.PROFILER_ID, 0)
+            cls.active = False
+        cls.budget = 1 << 62
+        return cls.count
